@@ -132,10 +132,12 @@ ThmCliExpected ==
             cov == << <<1, 0, 1, 0, 1>>, <<2, 0, 1, 3, 3>> >>
         IN ExpectedOut(o, cov, tiles) = CliExpected(o, tiles)
 
+\* a conversion the target format cannot express may be refused (an error, no output); if it is carried out it is judged like any other
+MayRefuse(r) == "may_refuse" \in DOMAIN r /\ r.may_refuse = 1
 RecompMetaName == "c04 name é"          \* the `name` of the source metadata in the recompression cases
 CliRecompFails(r) ==
     LET want == DeclaredOut(r.src_tc, r.target) IN
-    Fails("cli_exit", r.exit = 0) \cup
+    Fails("cli_exit", r.exit = 0 \/ MayRefuse(r)) \cup
     (IF r.exit # 0 THEN {} ELSE
      Fails("cli_file_payload", r.file.ok = 1 /\ r.file.tiles = r.tiles) \cup
      Fails("cli_file_declared", r.file.ok = 0 \/ r.file.tc = want) \cup
@@ -152,7 +154,8 @@ RecompFails(r) ==
      Fails("stream_payload", r.walk_ok = 1 /\ r.walk = r.tiles) \cup
      \* C02 for the (re)compressing reader: the stream delivers the very bytes the lookups deliver
      Fails("stream_bytes_eq_lookup", r.walk_ok = 0 \/ r.walk_raw = r.lookup_raw) \cup
-     Fails("file_payload", r.file.skip = 1 \/ (r.file.ok = 1 /\ r.file.tiles = r.tiles)) \cup
+     Fails("file_payload", r.file.skip = 1 \/ (MayRefuse(r) /\ r.file.ok = 0 /\ "refused" \in DOMAIN r.file /\ r.file.refused = 1)
+                           \/ (r.file.ok = 1 /\ r.file.tiles = r.tiles)) \cup
      \* WHICH compression is declared (clauses declared / file_declared) is reported, not demanded: C04 asks for identity
      \* under whatever the output declares
      Fails("file_declared", r.file.skip = 1 \/ r.file.ok = 0 \/ r.file.tc = want) \cup
